@@ -69,3 +69,46 @@ func VerifC09Fifo() {
 	verifAssert(q.Depth() == 0, "depth-zero-after-drain")
 	verifCover("end")
 }
+
+// VerifC09ReadBuffer: concrete-length boundary run around the reader's 4096-byte buffer. One long message puts
+// the length prefix of the next record 3, 2, 1 or 0 bytes before the point where the buffered reader has to
+// refill (offsets 4093..4096 of the segment), two short messages follow, the queue is optionally closed and
+// reopened, and everything is read back: byte-for-byte, in order, depth right. (Histories with short messages
+// never get a backlog beyond one reader buffer.)
+func VerifC09ReadBuffer() {
+	dir := verifTempDir()
+	VerifCrashPoint = func(string) { verifFsHooked() }
+	q := NewDiskQueue("q", dir, 1<<20, 100, time.Hour).(*DiskQueue)
+	n := 4089 + verifChoice("delta", 4)
+	long := make([]byte, n)
+	for i := range long {
+		long[i] = 'a'
+	}
+	long[0], long[n-1] = verifByte("first"), verifByte("last")
+	model := [][]byte{long}
+	verifAssert(q.Put(long) == nil, "put-ok")
+	for i := 0; i < 2; i++ {
+		m := verifBytes("m", 1+verifChoice("m.len", 2))
+		verifAssert(q.Put(m) == nil, "put-ok")
+		model = append(model, append([]byte{}, m...))
+	}
+	if verifBool("reopen") {
+		verifAssert(q.Close() == nil, "close-ok")
+		q = NewDiskQueue("q", dir, 1<<20, 100, time.Hour).(*DiskQueue)
+	}
+	verifSettle()
+	verifAssert(q.Depth() == int64(len(model)), "depth-equals-undelivered")
+	for i := range model {
+		got, ok := verifRecv(q.ReadChan())
+		verifAssert(ok, "message-available-when-enqueued")
+		if !ok {
+			return
+		}
+		verifAssert(string(got) == string(model[i]), "fifo-head-byte-for-byte")
+	}
+	_, ok := verifRecv(q.ReadChan())
+	verifAssert(!ok, "no-phantom-message")
+	verifSettle()
+	verifAssert(q.Depth() == 0, "depth-zero-after-drain")
+	verifCover("end")
+}
